@@ -7,6 +7,7 @@
 (*   G    its guard: the perturbation is used when the gap between the      *)
 (*        leading bits exceeds max(prec, bitcount) + G  (4)                 *)
 (*   DX   the extra quotient bits of mpf_div (5)                            *)
+(*   PT   the exact-power threshold of mpf_pow_int: bc * n < PT (1000)      *)
 (* Written over ZSig like the oracle (Exact), so that MpfMachine can check  *)
 (* Algo => Post on native integers and the same text could be run on limbs. *)
 (***************************************************************************)
@@ -15,7 +16,7 @@ CONSTANTS ZZero, ZOne, ZFromInt(_), ZToInt(_), ZSign(_), ZIsZero(_), ZNeg(_), ZA
           ZAdd(_, _), ZSub(_, _), ZMul(_, _), ZMulSmall(_, _), ZCmp(_, _),
           ZShl(_, _), ZShr(_, _), ZBitLen(_), ZTrailing(_), ZIsOdd(_),
           ZLowZero(_, _), ZBit(_, _), ZPow(_, _), ZPow2(_), ZDivFloor(_, _), ZMod(_, _),
-          FAR, G, DX
+          FAR, G, DX, PT
 INSTANCE MpfPost
 
 \* shifts_down[rnd][sign]: does a right shift (floor of the magnitude) round in the wanted direction?
@@ -98,6 +99,58 @@ AMod(s, t, prec, rnd) ==
            tm == ZShl(IF t.s = 1 THEN ZNeg(t.m) ELSE t.m, t.e - base)
            man == ZMod(sm, tm)                               \* Python's %: the sign of the divisor
        IN AFromManExp(man, base, prec, rnd)
+
+\* mpf_round_int(s, rnd) for rnd in {"f", "c", "n"} (floor, ceil, nint), finite s
+ARoundInt(s, rnd) ==
+  IF s = FZero \/ s.e >= 0 THEN s
+  ELSE LET mag == s.e + s.bc IN
+       IF mag < 1
+       THEN CASE rnd = "c" -> (IF s.s = 1 THEN FZero ELSE FOne)
+              [] rnd = "f" -> (IF s.s = 1 THEN FNeg(FOne) ELSE FZero)
+              [] rnd = "n" -> (IF mag < 0 \/ ZCmp(s.m, ZOne) = 0 THEN FZero ELSE IF s.s = 1 THEN FNeg(FOne) ELSE FOne)
+       ELSE ANormalize(s.s, s.m, s.e, s.bc, IMin(s.bc, mag), rnd)          \* mpf_pos(s, min(bc, mag), rnd)
+
+ReciprocalRnd(rnd) == CASE rnd = "d" -> "u" [] rnd = "u" -> "d" [] rnd = "f" -> "c" [] rnd = "c" -> "f" [] OTHER -> "n"
+BitLenNative(n) == ZBitLen(ZFromInt(n))
+\* the binary exponentiation loop of mpf_pow_int: state <<pm, pe, pbc, man, exp, bc, n>>
+RECURSIVE APowLoop(_, _, _, _, _, _, _, _, _)
+APowLoop(pm, pe, pbc, man, exp, bc, n, workprec, down) ==
+  LET Cut(m, b) == IF b > workprec
+                   THEN <<IF down THEN ZShr(m, b - workprec) ELSE ZNeg(ZShr(ZNeg(m), b - workprec)), b - workprec, workprec>>
+                   ELSE <<m, 0, b>>
+      odd == n % 2 = 1
+      pm1 == ZMul(pm, man)
+      pb0 == pbc + bc - 2
+      pb1 == pb0 + BitLenNative(ZToInt(ZShr(pm1, pb0)))
+      pc == Cut(pm1, pb1)
+      PM == IF odd THEN pc[1] ELSE pm
+      PE == IF odd THEN pe + exp + pc[2] ELSE pe
+      PB == IF odd THEN pc[3] ELSE pbc
+      n1 == IF odd THEN n - 1 ELSE n
+  IN IF odd /\ n1 = 0 THEN <<PM, PE, PB>>
+     ELSE LET m2 == ZMul(man, man)
+              b0 == bc + bc - 2
+              b1 == b0 + BitLenNative(ZToInt(ZShr(m2, b0)))
+              mc == Cut(m2, b1)
+          IN APowLoop(PM, PE, PB, mc[1], exp + exp + mc[2], mc[3], n1 \div 2, workprec, down)
+\* mpf_pow_int for finite nonzero s
+RECURSIVE APowInt(_, _, _, _)
+APowInt(s, n, prec, rnd) ==
+  IF n = 0 THEN FOne
+  ELSE IF n = 1 THEN ANormalize(s.s, s.m, s.e, s.bc, prec, rnd)
+  ELSE IF n = 2 THEN LET m2 == ZMul(s.m, s.m)
+                         b0 == s.bc + s.bc - 2
+                     IN IF ZCmp(m2, ZOne) = 0 THEN Mpf(0, ZOne, s.e + s.e, 1)
+                        ELSE ANormalize(0, m2, s.e + s.e, b0 + BitLenNative(ZToInt(ZShr(m2, b0))), prec, rnd)
+  ELSE IF n = -1 THEN ADiv(FOne, s, prec, rnd)
+  ELSE IF n < 0 THEN ADiv(FOne, APowInt(s, -n, prec + 5, ReciprocalRnd(rnd)), prec, rnd)
+  ELSE LET rs == IF s.s = 1 /\ n % 2 = 1 THEN 1 ELSE 0
+       IN IF ZCmp(s.m, ZOne) = 0 THEN Mpf(rs, ZOne, s.e * n, 1)
+          ELSE IF s.bc * n < PT THEN LET mp == ZPow(s.m, n) IN ANormalize(rs, mp, s.e * n, ZBitLen(mp), prec, rnd)
+          ELSE LET down == rnd = "n" \/ ShiftsDown(rnd, rs)
+                   wpw == prec + 4 * BitLenNative(n) + 4
+                   r == APowLoop(ZOne, 0, 1, s.m, s.e, s.bc, n, wpw, down)
+               IN ANormalize(rs, r[1], r[2], r[3], prec, rnd)         \* the tracked bit count (one short only when pm is a power of two)
 
 \* mpf_cmp for finite operands: -1, 0, 1
 ACmp(s, t) ==
